@@ -147,52 +147,70 @@ func (g *fwGeo) geom(kind fkind, cls byte, i int) feat {
 	return f
 }
 
-type fwScene struct {
-	feats    []feat
-	slots    []b6.FeatureID // in order
-	design   map[b6.FeatureID]byte
-	tagA     map[b6.FeatureID]bool
+// A world holds one or more sites: a site is one slot sequence laid out at its
+// own anchor cell (sites are 40 cells apart, so a site's features are far
+// outside every covering of every other site's queries). The tiny worlds have
+// one site; the compact worlds hold a group of sites (a compact build clears
+// some 400 MB of buffers whatever the size of the world).
+type fwSite struct {
+	g        *fwGeo
+	pattern  []int
+	slots    []b6.FeatureID         // in order
 	sentinel map[fkind]b6.FeatureID // only with sentinels
 }
+
+type fwScene struct {
+	feats  []feat
+	sites  []*fwSite
+	design map[b6.FeatureID]byte
+	tagA   map[b6.FeatureID]bool
+}
+
+const fwSlotStride = 8 // slot i of site j has ID value j*8+i+1
 
 var (
 	fwTagA = b6.Tag{Key: "#t", Value: b6.NewStringExpression("a")}
 	fwTagE = b6.Tag{Key: "#e", Value: b6.NewStringExpression("y")}
 )
 
-func (g *fwGeo) scene(pattern []int, slotType fkind, sentinels bool) *fwScene {
-	s := &fwScene{design: map[b6.FeatureID]byte{}, tagA: map[b6.FeatureID]bool{}, sentinel: map[fkind]b6.FeatureID{}}
-	for i, d := range pattern {
-		sym := fwAlphabet[d]
-		f := g.geom(slotType, sym.cls, i)
-		f.id = b6.FeatureID{Type: ftypeOf(slotType), Namespace: ns, Value: uint64(i + 1)}
-		f.name = fmt.Sprintf("slot%d:%s", i, sym)
-		f.tags = b6.Tags{fwTagE}
-		if sym.tagged {
-			f.tags = append(f.tags, fwTagA)
-		}
-		f.inBase = i%2 == 0
-		s.feats = append(s.feats, f)
-		s.slots = append(s.slots, f.id)
-		s.design[f.id] = sym.cls
-		s.tagA[f.id] = sym.tagged
-	}
-	if sentinels {
-		for _, k := range fwSlotTypes {
-			f := g.geom(k, 'M', 0)
-			f.id = b6.FeatureID{Type: ftypeOf(k), Namespace: fwSentinelNS, Value: 1}
-			f.name = "sentinel-" + k.String()
+func fwScenes(geos []*fwGeo, patterns [][]int, slotType fkind, sentinels bool) *fwScene {
+	s := &fwScene{design: map[b6.FeatureID]byte{}, tagA: map[b6.FeatureID]bool{}}
+	for j, pattern := range patterns {
+		g := geos[j]
+		site := &fwSite{g: g, pattern: pattern, sentinel: map[fkind]b6.FeatureID{}}
+		s.sites = append(s.sites, site)
+		for i, d := range pattern {
+			sym := fwAlphabet[d]
+			f := g.geom(slotType, sym.cls, i)
+			f.id = b6.FeatureID{Type: ftypeOf(slotType), Namespace: ns, Value: uint64(j*fwSlotStride + i + 1)}
+			f.name = fmt.Sprintf("site%d-slot%d:%s", j, i, sym)
 			f.tags = b6.Tags{fwTagE}
-			f.inBase = true
+			if sym.tagged {
+				f.tags = append(f.tags, fwTagA)
+			}
+			f.inBase = i%2 == 0
 			s.feats = append(s.feats, f)
-			s.design[f.id] = 'M'
-			s.sentinel[k] = f.id
+			site.slots = append(site.slots, f.id)
+			s.design[f.id] = sym.cls
+			s.tagA[f.id] = sym.tagged
 		}
-		s.feats = append(s.feats,
-			feat{name: "sentinel-relation", kind: fRelation, id: b6.FeatureID{Type: b6.FeatureTypeRelation, Namespace: fwSentinelNS, Value: 1},
-				members: []b6.FeatureID{s.sentinel[fPoint], s.sentinel[fPath]}, e7: true, inBase: true, tags: b6.Tags{fwTagE}},
-			feat{name: "sentinel-collection", kind: fCollection, id: b6.FeatureID{Type: b6.FeatureTypeCollection, Namespace: fwSentinelNS, Value: 1},
-				members: []b6.FeatureID{s.sentinel[fPoint]}, e7: true, inBase: true, tags: b6.Tags{fwTagE}})
+		if sentinels {
+			for _, k := range fwSlotTypes {
+				f := g.geom(k, 'M', 0)
+				f.id = b6.FeatureID{Type: ftypeOf(k), Namespace: fwSentinelNS, Value: uint64(j + 1)}
+				f.name = fmt.Sprintf("site%d-sentinel-%s", j, k)
+				f.tags = b6.Tags{fwTagE}
+				f.inBase = true
+				s.feats = append(s.feats, f)
+				s.design[f.id] = 'M'
+				site.sentinel[k] = f.id
+			}
+			s.feats = append(s.feats,
+				feat{name: fmt.Sprintf("site%d-sentinel-relation", j), kind: fRelation, id: b6.FeatureID{Type: b6.FeatureTypeRelation, Namespace: fwSentinelNS, Value: uint64(j + 1)},
+					members: []b6.FeatureID{site.sentinel[fPoint], site.sentinel[fPath]}, e7: true, inBase: true, tags: b6.Tags{fwTagE}},
+				feat{name: fmt.Sprintf("site%d-sentinel-collection", j), kind: fCollection, id: b6.FeatureID{Type: b6.FeatureTypeCollection, Namespace: fwSentinelNS, Value: uint64(j + 1)},
+					members: []b6.FeatureID{site.sentinel[fPoint]}, e7: true, inBase: true, tags: b6.Tags{fwTagE}})
+		}
 	}
 	return s
 }
@@ -212,7 +230,8 @@ type fwQuery struct {
 
 func fwCoverer() s2.RegionCoverer { return s2.RegionCoverer{MaxLevel: 16, MaxCells: 5} }
 
-func (g *fwGeo) queries(s *fwScene, slotType fkind) []fwQuery {
+func (s *fwSite) queries(slotType fkind, design map[b6.FeatureID]byte) []fwQuery {
+	g := s.g
 	cov := fwCoverer()
 	p := pt(g.p)
 	fixed := func(family, name string, q b6.Query, c s2.CellUnion) fwQuery {
@@ -231,7 +250,7 @@ func (g *fwGeo) queries(s *fwScene, slotType fkind) []fwQuery {
 	}
 	if slotType == fPoint {
 		for _, id := range s.slots {
-			if s.design[id] == 'M' {
+			if design[id] == 'M' {
 				hot = append(hot, id)
 			}
 		}
@@ -385,36 +404,67 @@ func (n *fwNode) group() string {
 	return n.op
 }
 
-func fwWrappers() []*fwNode {
+// fwWrappers lists the forms a spatial query q is evaluated in.
+//
+// quick: bare; Typed x 5 types; Intersection with #t=a and #e=y in both
+// orders; Union with #t=a in both orders; Typed[slot type] over those six
+// Intersections / Unions; Intersection of Typed[slot type](q) with #t=a in both
+// orders; Intersection with the second cap in both orders (22 forms).
+// thorough: additionally Union with #e=y, the nested forms for all three
+// geometry types, Union of Typed with #t=a, Union with the second cap (47).
+func fwWrappers(tier string, slotType fkind) []*fwNode {
 	q, q2, ta, te := &fwNode{op: "q"}, &fwNode{op: "q2"}, &fwNode{op: "ta"}, &fwNode{op: "te"}
 	typed := func(t b6.FeatureType, k *fwNode) *fwNode { return &fwNode{op: "typed", t: t, kids: []*fwNode{k}} }
 	and := func(a, b *fwNode) *fwNode { return &fwNode{op: "and", kids: []*fwNode{a, b}} }
 	or := func(a, b *fwNode) *fwNode { return &fwNode{op: "or", kids: []*fwNode{a, b}} }
+	thorough := tier == "thorough"
 	out := []*fwNode{q}
 	for _, t := range []b6.FeatureType{b6.FeatureTypePoint, b6.FeatureTypePath, b6.FeatureTypeArea, b6.FeatureTypeRelation, b6.FeatureTypeCollection} {
 		out = append(out, typed(t, q))
 	}
-	for _, x := range []*fwNode{ta, te} {
-		out = append(out, and(x, q), and(q, x), or(x, q), or(q, x))
+	out = append(out, and(ta, q), and(q, ta), and(te, q), and(q, te), or(ta, q), or(q, ta))
+	if thorough {
+		out = append(out, or(te, q), or(q, te))
 	}
-	for _, t := range []b6.FeatureType{b6.FeatureTypePoint, b6.FeatureTypePath, b6.FeatureTypeArea} {
-		for _, x := range []*fwNode{ta, te} {
-			out = append(out, typed(t, and(x, q)), typed(t, and(q, x)))
+	nested := []b6.FeatureType{ftypeOf(slotType)}
+	if thorough {
+		nested = []b6.FeatureType{b6.FeatureTypePoint, b6.FeatureTypePath, b6.FeatureTypeArea}
+	}
+	for _, t := range nested {
+		out = append(out, typed(t, and(ta, q)), typed(t, and(q, ta)), typed(t, and(te, q)), typed(t, and(q, te)),
+			typed(t, or(ta, q)), typed(t, or(q, ta)),
+			and(typed(t, q), ta), and(ta, typed(t, q)))
+		if thorough {
+			out = append(out, or(typed(t, q), ta), or(ta, typed(t, q)))
 		}
-		out = append(out, typed(t, or(ta, q)), typed(t, or(q, ta)),
-			and(typed(t, q), ta), and(ta, typed(t, q)), or(typed(t, q), ta), or(ta, typed(t, q)))
 	}
-	out = append(out, and(q, q2), and(q2, q), or(q, q2))
+	out = append(out, and(q, q2), and(q2, q))
+	if thorough {
+		out = append(out, or(q, q2))
+	}
 	return out
 }
 
 // ---- cases -----------------------------------------------------------------------
 
+// fwGroup is the number of sites of one compact world.
+const fwGroup = 20
+
 type fwCase struct {
-	pattern   []int
+	patterns  [][]int // one (tiny world) or up to fwGroup (compact world)
+	first     int     // index of the first pattern in the simplest-first list
 	slotType  fkind
 	sentinels bool
 	kind      string
+}
+
+// fwAlphabetSize, fwMaxLen: quick enumerates the sequences of 1..4 slots over
+// {M-,Ma,R-,Ra}; thorough the sequences of 1..5 slots over {M-,Ma,R-,Ra,Fa}.
+func fwAlphabetSize(tier string) int {
+	if tier == "thorough" {
+		return 5
+	}
+	return 4
 }
 
 func fwMaxLen(tier string) int {
@@ -424,24 +474,47 @@ func fwMaxLen(tier string) int {
 	return 4
 }
 
-// fwCases lists the cases simplest-first: by pattern length, then pattern
-// (alphabet order), slot type, without / with sentinels, world kind.
-func fwCases(tier string) []fwCase {
-	var out []fwCase
+func fwPatterns(tier string) [][]int {
+	var out [][]int
 	for l := 1; l <= fwMaxLen(tier); l++ {
 		radices := make([]int, l)
 		for i := range radices {
-			radices[i] = len(fwAlphabet)
+			radices[i] = fwAlphabetSize(tier)
 		}
 		n := kit.Product(radices)
 		for i := int64(0); i < n; i++ {
-			p := kit.Digits(i, radices)
-			for _, st := range fwSlotTypes {
-				for _, sen := range []bool{false, true} {
-					for _, k := range worldKinds {
-						out = append(out, fwCase{pattern: p, slotType: st, sentinels: sen, kind: k})
-					}
+			out = append(out, kit.Digits(i, radices))
+		}
+	}
+	return out
+}
+
+var fwTinyKinds = []string{"basic", "basic-mutable", "overlay"}
+
+// fwCases lists the cases simplest-first: the one-site worlds by pattern
+// length, then pattern (alphabet order), slot type, without / with sentinels,
+// world kind; then the compact worlds, each holding fwGroup consecutive
+// patterns of that order.
+func fwCases(tier string) []fwCase {
+	ps := fwPatterns(tier)
+	var out []fwCase
+	for i, p := range ps {
+		for _, st := range fwSlotTypes {
+			for _, sen := range []bool{false, true} {
+				for _, k := range fwTinyKinds {
+					out = append(out, fwCase{patterns: [][]int{p}, first: i, slotType: st, sentinels: sen, kind: k})
 				}
+			}
+		}
+	}
+	for i := 0; i < len(ps); i += fwGroup {
+		j := i + fwGroup
+		if j > len(ps) {
+			j = len(ps)
+		}
+		for _, st := range fwSlotTypes {
+			for _, sen := range []bool{false, true} {
+				out = append(out, fwCase{patterns: ps[i:j], first: i, slotType: st, sentinels: sen, kind: "compact"})
 			}
 		}
 	}
@@ -453,10 +526,12 @@ func (c *fwCase) String() string {
 	if c.sentinels {
 		sen = "with sentinel matches of every type"
 	}
-	return fmt.Sprintf("filter world [%s] of %ss, %s, world %s", fwPatternName(c.pattern), c.slotType, sen, c.kind)
+	if len(c.patterns) == 1 {
+		return fmt.Sprintf("filter world [%s] of %ss, %s, world %s", fwPatternName(c.patterns[0]), c.slotType, sen, c.kind)
+	}
+	return fmt.Sprintf("filter world of %d sites (patterns #%d [%s] .. #%d [%s]) of %ss, %s, world %s", len(c.patterns),
+		c.first, fwPatternName(c.patterns[0]), c.first+len(c.patterns)-1, fwPatternName(c.patterns[len(c.patterns)-1]), c.slotType, sen, c.kind)
 }
-
-var fwWrapperList = fwWrappers()
 
 func idList(m map[b6.FeatureID]int) string {
 	var ids []b6.FeatureID
@@ -474,9 +549,9 @@ func idList(m map[b6.FeatureID]int) string {
 	return "[" + strings.Join(parts, " ") + "]"
 }
 
-func runFilterCase(g *fwGeo, c *fwCase, idx int64) kit.Result {
+func runFilterCase(geos []*fwGeo, tier string, c *fwCase, idx int64) kit.Result {
 	var r kit.Result
-	s := g.scene(c.pattern, c.slotType, c.sentinels)
+	s := fwScenes(geos, c.patterns, c.slotType, c.sentinels)
 	fs := make([]*feat, len(s.feats))
 	for i := range s.feats {
 		fs[i] = &s.feats[i]
@@ -495,110 +570,126 @@ func runFilterCase(g *fwGeo, c *fwCase, idx int64) kit.Result {
 		names[s.feats[i].id] = s.feats[i].name
 	}
 	infos := make([]fwInfo, len(b.feats))
-	q2 := b6.NewIntersectsCap(g.bigCap)
 	for i, f := range b.feats {
 		id := f.FeatureID()
 		_, ours := names[id]
 		infos[i] = fwInfo{id: id, ta: s.tagA[id], te: ours}
-		infos[i].m2 = isIndexed(f) && q2.Matches(f, b.w)
 	}
+	if len(b.feats) != len(s.feats) {
+		r.AddOutcome(fmt.Sprintf("fw:world-reports-%d-of-%d-features:%s", len(b.feats), len(s.feats), c.kind))
+	}
+	wrappers := fwWrappers(tier, c.slotType)
 	viol := map[string][]string{}
 	addViol := func(cl, line string) {
 		if len(viol[cl]) < 6 {
 			viol[cl] = append(viol[cl], line)
 		}
 	}
-	for _, fq := range g.queries(s, c.slotType) {
-		if fq.build == nil {
-			r.AddOutcome("fw:skipped:intersects-feature-needs-sentinels")
-			continue
+	for j, site := range s.sites {
+		sdesc := ""
+		if len(s.sites) > 1 {
+			sdesc = fmt.Sprintf("site %d [%s]: ", j, fwPatternName(site.pattern))
 		}
-		q := fq.build(b.w)
+		q2 := b6.NewIntersectsCap(site.g.bigCap)
 		for i, f := range b.feats {
-			infos[i].m = isIndexed(f) && q.Matches(f, b.w)
+			infos[i].m2 = isIndexed(f) && q2.Matches(f, b.w)
 		}
-		// what the slots turned out to be for this query (classification only)
-		qcov := fq.cover(b.w)
-		observed := make([]byte, 0, len(s.slots))
-		asDesigned := true
-		for i, f := range b.feats {
-			d, isSlot := s.design[f.FeatureID()]
-			if !isSlot || f.FeatureID().Namespace != ns {
+		isSlot := map[b6.FeatureID]bool{}
+		for _, id := range site.slots {
+			isSlot[id] = true
+		}
+		for _, fq := range site.queries(c.slotType, s.design) {
+			if fq.build == nil {
+				r.AddOutcome("fw:skipped:intersects-feature-needs-sentinels")
 				continue
 			}
-			o := byte('F')
-			switch {
-			case infos[i].m:
-				o = 'M'
-			case qcov.Intersects(featureCovering(f)):
-				o = 'R'
+			q := fq.build(b.w)
+			for i, f := range b.feats {
+				infos[i].m = isIndexed(f) && q.Matches(f, b.w)
 			}
-			if o != d {
-				asDesigned = false
-				r.AddOutcome(fmt.Sprintf("fw:slot-differs-from-design:%s:%s:%s:%c-is-%c", fq.family, c.slotType, c.kind, d, o))
-			}
-			if o != 'F' {
-				observed = append(observed, o)
-			}
-		}
-		if asDesigned {
-			r.AddOutcome("fw:slots-as-designed:" + fq.family)
-		}
-		for _, run := range rejectRuns(observed) {
-			r.AddOutcome("fw:consecutive-covering-only-candidates:" + run)
-		}
-		for _, wr := range fwWrapperList {
-			query := wr.query(q, q2)
-			expected := map[b6.FeatureID]int{}
-			for i := range infos {
-				if wr.eval(&infos[i]) {
-					expected[infos[i].id] = 1
+			// what the slots turned out to be for this query (classification only)
+			qcov := fq.cover(b.w)
+			observed := make([]byte, 0, len(site.slots))
+			asDesigned := true
+			for i, f := range b.feats {
+				if !isSlot[f.FeatureID()] {
+					continue
 				}
-			}
-			got := map[b6.FeatureID]int{}
-			n := 0
-			it := b.w.FindFeatures(query)
-			for it.Next() {
-				got[it.FeatureID()]++
-				n++
-				if n > 10*len(b.feats)+10 {
-					addViol("runaway-iterator:"+wr.shape(fq.family), fmt.Sprintf("%s: more than %d results", wr.name(fq.name), n))
-					break
-				}
-			}
-			r.Evals++
-			if len(expected) > 0 || n > 0 {
-				r.Distinct++
-			}
-			r.AddOutcome(fmt.Sprintf("fw:%s:matches-%s", wr.group(), bucket(len(expected))))
-			bad := false
-			for _, in := range infos {
-				id := in.id
-				ft := id.Type.String()
+				d := s.design[f.FeatureID()]
+				o := byte('F')
 				switch {
-				case expected[id] == 1 && got[id] == 0:
-					bad = true
-					addViol("missed:"+wr.shape(fq.family)+":"+ft, fmt.Sprintf("%s: missing %s (%s); expected %s, returned %s", wr.name(fq.name), id, names[id], idList(expected), idList(got)))
-				case got[id] > 1:
-					bad = true
-					addViol("duplicate:"+wr.shape(fq.family)+":"+ft, fmt.Sprintf("%s: %s (%s) returned %d times; expected %s, returned %s", wr.name(fq.name), id, names[id], got[id], idList(expected), idList(got)))
-				case expected[id] == 0 && got[id] > 0:
-					bad = true
-					why := "the spatial query's own Matches rejects it"
-					if in.m {
-						why = "outside the type / tag restriction"
+				case infos[i].m:
+					o = 'M'
+				case qcov.Intersects(featureCovering(f)):
+					o = 'R'
+				}
+				if o != d {
+					asDesigned = false
+					r.AddOutcome(fmt.Sprintf("fw:slot-differs-from-design:%s:%s:%s:%c-is-%c", fq.family, c.slotType, c.kind, d, o))
+				}
+				if o != 'F' {
+					observed = append(observed, o)
+				}
+			}
+			if asDesigned {
+				r.AddOutcome("fw:slots-as-designed:" + fq.family)
+			}
+			for _, run := range rejectRuns(observed) {
+				r.AddOutcome("fw:consecutive-covering-only-candidates:" + run)
+			}
+			for _, wr := range wrappers {
+				query := wr.query(q, q2)
+				expected := map[b6.FeatureID]int{}
+				for i := range infos {
+					if wr.eval(&infos[i]) {
+						expected[infos[i].id] = 1
 					}
-					addViol("invented:"+wr.shape(fq.family)+":"+ft, fmt.Sprintf("%s: unexpected %s (%s; %s); expected %s, returned %s", wr.name(fq.name), id, names[id], why, idList(expected), idList(got)))
 				}
-			}
-			for id := range got {
-				if _, ok := names[id]; !ok {
-					bad = true
-					addViol("invented:not-in-world:"+wr.shape(fq.family), fmt.Sprintf("%s: returned %s, which is not a feature of the world", wr.name(fq.name), id))
+				got := map[b6.FeatureID]int{}
+				n := 0
+				it := b.w.FindFeatures(query)
+				for it.Next() {
+					got[it.FeatureID()]++
+					n++
+					if n > 10*len(b.feats)+10 {
+						addViol("runaway-iterator:"+wr.shape(fq.family), fmt.Sprintf("%s%s: more than %d results", sdesc, wr.name(fq.name), n))
+						break
+					}
 				}
-			}
-			if bad {
-				r.Outcome = "violation"
+				r.Evals++
+				if len(expected) > 0 || n > 0 {
+					r.Distinct++
+				}
+				r.AddOutcome(fmt.Sprintf("fw:%s:matches-%s", wr.group(), bucket(len(expected))))
+				bad := false
+				for _, in := range infos {
+					id := in.id
+					ft := id.Type.String()
+					switch {
+					case expected[id] == 1 && got[id] == 0:
+						bad = true
+						addViol("missed:"+wr.shape(fq.family)+":"+ft, fmt.Sprintf("%s%s: missing %s (%s); expected %s, returned %s", sdesc, wr.name(fq.name), id, names[id], idList(expected), idList(got)))
+					case got[id] > 1:
+						bad = true
+						addViol("duplicate:"+wr.shape(fq.family)+":"+ft, fmt.Sprintf("%s%s: %s (%s) returned %d times; expected %s, returned %s", sdesc, wr.name(fq.name), id, names[id], got[id], idList(expected), idList(got)))
+					case expected[id] == 0 && got[id] > 0:
+						bad = true
+						why := "the spatial query's own Matches rejects it"
+						if in.m {
+							why = "outside the type / tag restriction"
+						}
+						addViol("invented:"+wr.shape(fq.family)+":"+ft, fmt.Sprintf("%s%s: unexpected %s (%s; %s); expected %s, returned %s", sdesc, wr.name(fq.name), id, names[id], why, idList(expected), idList(got)))
+					}
+				}
+				for id := range got {
+					if _, ok := names[id]; !ok {
+						bad = true
+						addViol("invented:not-in-world:"+wr.shape(fq.family), fmt.Sprintf("%s%s: returned %s, which is not a feature of the world", sdesc, wr.name(fq.name), id))
+					}
+				}
+				if bad {
+					r.Outcome = "violation"
+				}
 			}
 		}
 	}
@@ -609,7 +700,9 @@ func runFilterCase(g *fwGeo, c *fwCase, idx int64) kit.Result {
 	if idx%997 == 0 {
 		var fl []string
 		for i := range s.feats {
-			fl = append(fl, s.feats[i].id.String()+"="+s.feats[i].name)
+			if i < 12 {
+				fl = append(fl, s.feats[i].id.String()+"="+s.feats[i].name)
+			}
 		}
 		r.Sample = map[string]interface{}{"case": desc, "features": fl, "queries-run": r.Evals, "nontrivial": r.Distinct}
 	}
@@ -649,6 +742,24 @@ func rejectRuns(obs []byte) []string {
 		}
 		out = append(out, fmt.Sprintf("len%d:%s", j-i, pos))
 		i = j
+	}
+	return out
+}
+
+// fwSiteGeos gives the geometry of the sites: site j sits 40*j cells to the
+// right of the anchor cell.
+func fwSiteGeos(a anchor) []*fwGeo {
+	out := make([]*fwGeo, fwGroup)
+	c := a.cell
+	for j := 0; j < fwGroup; j++ {
+		out[j] = newFwGeo(anchor{name: fmt.Sprintf("%s+%d", a.name, 40*j), cell: c})
+		for k := 0; k < 40; k++ {
+			n := c.EdgeNeighbors()[1]
+			if n.Face() != c.Face() {
+				panic("filter worlds: sites leave the face")
+			}
+			c = n
+		}
 	}
 	return out
 }
